@@ -333,12 +333,39 @@ def draw(source, ty, hint):
         return source.bool(hint)
     if tag == 'Str':
         return source.str(hint, ty.args[0])
+    if tag == 'Int' and ty.args and ty.args[0] == 'nonpattern':
+        pool = [7, None, 2.5, ['a']]
+        if isinstance(source, ModelSource):
+            return pool[0]
+        return source.choice(hint + '.obj', pool)
+    if tag == 'Union':
+        alts = ty.args[0]
+        labels = [lab for lab, _ in alts]
+        base, idx = (hint[:hint.rindex('.')], hint[hint.rindex('['):]) if hint.endswith(']') else (hint, '')
+        if isinstance(source, ModelSource):
+            k = source.int(base + '.tag' + idx)
+            k = k if 0 <= k < len(labels) else 0
+        else:
+            k = labels.index(source.choice(hint + '.tag', labels))
+        lab, t = alts[k]
+        return draw(source, t, '%s.%s%s' % (base, lab, idx))
     if tag == 'Any':
         if ty.args and ty.args[0] == 'regex':
             import re
             pool = ['a', 'b', 'ab', 'a*', 'b$', '', '.', 'a|b']
+            if ty.args[1] == '?':
+                pool = pool + ['\xe9']
             pat = source.choice(hint + '.regex', pool) if not isinstance(source, ModelSource) else \
                 pool[abs(hash(str(source.model.get(hint, hint)))) % len(pool)]
+            if ty.args[1] == '?':
+                # a compiled pattern of either string type with flags of its own (C20)
+                if isinstance(source, ModelSource):
+                    h = abs(hash(str(source.model.get(hint, hint))))
+                    kind, flags = 'bs'[h % 2], [0, re.I, re.M | re.X, re.S, re.A][(h // 2) % 5]
+                else:
+                    kind = source.choice(hint + '.type', ['b', 's'])
+                    flags = source.choice(hint + '.flags', [0, re.I, re.M | re.X, re.S, re.A, re.I | re.S])
+                return re.compile(conv_str(pat, kind), flags)
             return re.compile(conv_str(pat, ty.args[1]), re.DOTALL)
         return Opaque(source.fresh_name(hint))
     if tag == 'None':
@@ -486,6 +513,14 @@ class ConcBuilder:
 
     def func(self, v):
         return v
+
+    def regex(self, name):
+        from pyvc.types import T
+        return draw(self.source, T('Any', 'regex', '?'), name)
+
+    def union(self, name, alts):
+        from pyvc.types import T
+        return draw(self.source, T('Union', tuple(alts)), name)
 
     def grid(self, name, rows, cols):
         if rows < 0 or cols < 0 or rows * cols > 64:
